@@ -753,8 +753,17 @@ def _one(rng, kind, big):
             X["rules"].append(["rlost", [["lose"]]])
             if 0.3 <= again < 0.6:
                 X["rules"].append(["wlost", [["losew"]]])       # a second half-close once the first is complete
+            late = rng.random()
+            # write() / writeSequence() after the write side has been shut down: dropped silently, nothing else happens
+            after = rng.sample([["ws", [5, 7]], ["w", 3], ["ws", [1]], ["w", 100], ["ws", [0, 200, 1]]], rng.randrange(1, 4))
+            if late < 0.35:
+                X["rules"].append(["wlost", after])
+            elif late < 0.55:
+                X["rules"].append(["wlost", [["later", rng.choice([0, 2, 10]), after]]])
+            elif late < 0.7:
+                X["rules"].append([["recv", 1], after])         # when the first reply bytes arrive
         if hy:
-            reply = _chain(rng, W(min(total, rng.choice([0, 1, 50, 3000, 30000]))), [["lose"]])
+            reply = _chain(rng, W(min(max(total, 1), rng.choice([1, 50, 3000, 30000, 30000]))), [["lose"]])
             Y["rules"].append(["rlost", reply if rng.random() < 0.5 else [["later", rng.choice([5, 25]), reply]]])
     elif kind == "echo":
         total = max(1, min(total, 20000 if not big else total))
@@ -997,6 +1006,21 @@ def corpus():
          "A": {"half": False, "rules": [["conn", [["w", 3000]]], [["at", 20], [["abort"]]]]},
          "B": {"half": True, "rules": []},
          "expect": {"A": ["A"], "B": ["L"], "AB": "prefix", "BA": "exact"}},
+    ]
+    base += [
+        # writeSequence() and write() after the half-close COMPLETED (from writeConnectionLost and when the reply
+        # starts arriving): both are dropped silently (C14: write and write_seq share the _writeDisconnected guard);
+        # the peer's large reply still arrives completely and both sides end with ConnectionDone
+        {"kind": "corpus-write-after-halfclose", "sndbuf": 0, "rcvbuf": 0, "sl": 0, "bs": 0, "limit": 20,
+         "A": {"half": True, "rules": [["conn", [["w", 100], ["losew"]]], ["wlost", [["ws", [5, 7]], ["w", 3]]],
+                                       [["recv", 1], [["ws", [9]], ["w", 1]]], ["rlost", [["lose"]]]]},
+         "B": {"half": True, "rules": [["rlost", [["w", 300000], ["later", 2, [["w", 100000], ["lose"]]]]]]},
+         "expect": E},
+        {"kind": "corpus-writeseq-after-halfclose-server", "sndbuf": 4096, "rcvbuf": 2304, "sl": 3000, "bs": 1500,
+         "A": {"half": True, "rules": [["rlost", [["w", 20000], ["lose"]]]]},
+         "B": {"half": True, "rules": [["conn", [["ws", [10, 20]], ["losew"]]],
+                                       ["wlost", [["later", 1, [["ws", [4, 4]]]]]], ["rlost", [["lose"]]]]},
+         "expect": E},
     ]
     out = []
     for rk in REACTORS:
